@@ -10,7 +10,8 @@
 (***************************************************************************)
 EXTENDS TdfObjectsCore
 
-CONSTANTS Kind, NI, MaxItems, MaxChan, Labels, Chans, AutoRule
+CONSTANTS Kind, NI, MaxItems, MaxChan, Labels, Chans, AutoRule,
+          Edits     \* offer in-place edits of item content (C20 models; doubles the states per item)
 \* AutoRule: "max" (largest channel + 1) or "len" (number of items)
 
 VARIABLES w, started
@@ -21,7 +22,7 @@ vars == <<w, started>>
 nid == 101
 
 HasChans == Kind \in ChanKinds
-Item(id, l) == [id |-> id, label |-> l]
+Item(id, l) == [id |-> id, label |-> l, val |-> 0]
 
 AutoChan(inst) ==
   IF AutoRule = "len" THEN Len(inst.items)
@@ -51,19 +52,20 @@ AddSeq(inst, xs, cs, k) ==
 Fresh(n) == [k \in 1..n |-> nid + k - 1]   \* ids of n new item objects
 
 CallConstruct(i, ls) ==
-  LET xs == [k \in 1..Len(ls) |-> [id |-> nid + k - 1, label |-> ls[k], good |-> TRUE]]
+  LET xs == [k \in 1..Len(ls) |-> [id |-> nid + k - 1, label |-> ls[k], good |-> TRUE, val |-> 0]]
       r  == AddSeq([ex |-> TRUE, items |-> <<>>, chans |-> <<>>, aux |-> 0, szok |-> TRUE], xs, <<>>, 1)
-  IN [o |-> [op |-> "construct", i |-> i, xs |-> xs], w2 |-> [w EXCEPT ![i] = r.inst], res |-> OkRes(<<>>), used |-> Len(ls)]
+  IN [o |-> [op |-> "construct", i |-> i, xs |-> xs, share_ok |-> FALSE], w2 |-> [w EXCEPT ![i] = r.inst], res |-> OkRes(<<>>), used |-> Len(ls)]
 
 CallDecode(i, j) ==
   LET a == w[i]
-      d == [ex |-> TRUE, items |-> [k \in 1..Len(a.items) |-> Item(nid + k - 1, a.items[k].label)], chans |-> a.chans,
+      d == [ex |-> TRUE, items |-> [k \in 1..Len(a.items) |-> [Item(nid + k - 1, a.items[k].label) EXCEPT !.val = a.items[k].val]],
+            chans |-> a.chans,
             aux |-> a.aux, szok |-> TRUE]
-  IN [o |-> [op |-> "decode", i |-> i, j |-> j], w2 |-> [w EXCEPT ![j] = d], res |-> OkRes(<<>>), used |-> Len(a.items)]
+  IN [o |-> [op |-> "decode", i |-> i, j |-> j, share_ok |-> FALSE], w2 |-> [w EXCEPT ![j] = d], res |-> OkRes(<<>>), used |-> Len(a.items)]
 
 CallAdd(i, l, good, c) ==
   LET r == AddTo(w[i], Item(nid, l), good, c)
-  IN [o |-> [op |-> "add", i |-> i, x |-> Item(nid, l), good |-> good, c |-> c],
+  IN [o |-> [op |-> "add", i |-> i, x |-> Item(nid, l), good |-> good, c |-> c, share_ok |-> FALSE],
       w2 |-> [w EXCEPT ![i] = r.inst], res |-> r.res, used |-> 1]
 
 CallRemove(i, by, key) ==
@@ -71,7 +73,7 @@ CallRemove(i, by, key) ==
       cands == IF by = "label" THEN {k \in 1..n : a.items[k].label = key}
                ELSE IF by = "index" THEN (IF key >= 0 /\ key < n THEN {key + 1} ELSE {})
                ELSE {k \in 1..n : a.items[k].id = key}
-      o == [op |-> "remove", i |-> i, by |-> by, key |-> key,
+      o == [op |-> "remove", i |-> i, by |-> by, key |-> key, share_ok |-> FALSE,
             pos |-> IF cands = {} THEN 0 ELSE CHOOSE k \in cands : \A j \in cands : k <= j]
   IN IF cands = {} THEN [o |-> o, w2 |-> w, res |-> ErrRes(IF by = "label" THEN "KeyError" ELSE "ValueError"), used |-> 0]
      ELSE LET k == CHOOSE k \in cands : \A j \in cands : k <= j IN
@@ -81,8 +83,8 @@ CallRemove(i, by, key) ==
 
 \* pat: sequence of <<label, good>>; cs: channels for FPCal pairs
 CallAssign(i, pat, cs) ==
-  LET xs == [k \in 1..Len(pat) |-> [id |-> nid + k - 1, label |-> pat[k][1], good |-> pat[k][2]]]
-      o  == [op |-> "assign", i |-> i, xs |-> xs, cs |-> cs]
+  LET xs == [k \in 1..Len(pat) |-> [id |-> nid + k - 1, label |-> pat[k][1], good |-> pat[k][2], val |-> 0]]
+      o  == [op |-> "assign", i |-> i, xs |-> xs, cs |-> cs, share_ok |-> FALSE]
       a  == w[i]
   IN IF Kind \in {"Data3D", "Force"} THEN
           IF \A k \in 1..Len(xs) : xs[k].good
@@ -93,9 +95,9 @@ CallAssign(i, pat, cs) ==
           IN [o |-> o, w2 |-> [w EXCEPT ![i] = r.inst], res |-> r.res, used |-> Len(pat)]
 
 CallBulkAdd(i, ls, cs) ==
-  LET xs == [k \in 1..Len(ls) |-> [id |-> nid + k - 1, label |-> ls[k], good |-> TRUE]]
+  LET xs == [k \in 1..Len(ls) |-> [id |-> nid + k - 1, label |-> ls[k], good |-> TRUE, val |-> 0]]
       r  == AddSeq(w[i], xs, cs, 1)
-  IN [o |-> [op |-> "bulk_add", i |-> i, xs |-> xs, cs |-> cs], w2 |-> [w EXCEPT ![i] = r.inst], res |-> r.res,
+  IN [o |-> [op |-> "bulk_add", i |-> i, xs |-> xs, cs |-> cs, share_ok |-> FALSE], w2 |-> [w EXCEPT ![i] = r.inst], res |-> r.res,
       used |-> Len(ls)]
 
 LookupVal(a, what, key) ==
@@ -109,12 +111,20 @@ LookupVal(a, what, key) ==
     [] what = "contains" -> OkRes(<<IF \E k \in 1..n : a.items[k].label = key THEN 1 ELSE 0>>)
     [] what = "badkey" -> ErrRes("TypeError")
 CallLookup(i, what, key) ==
-  [o |-> [op |-> "lookup", i |-> i, what |-> what, key |-> key], w2 |-> w, res |-> LookupVal(w[i], what, key), used |-> 0]
+  [o |-> [op |-> "lookup", i |-> i, what |-> what, key |-> key, share_ok |-> FALSE], w2 |-> w, res |-> LookupVal(w[i], what, key), used |-> 0]
 CallAux(i) ==
-  [o |-> [op |-> "aux", i |-> i], w2 |-> [w EXCEPT ![i].aux = @ + 1], res |-> OkRes(<<>>), used |-> 0]
+  [o |-> [op |-> "aux", i |-> i, share_ok |-> FALSE], w2 |-> [w EXCEPT ![i].aux = @ + 1], res |-> OkRes(<<>>), used |-> 0]
+CallEdit(i, pos) ==
+  [o |-> [op |-> "edit", i |-> i, pos |-> pos, share_ok |-> FALSE], res |-> OkRes(<<>>), used |-> 0,
+   w2 |-> [w EXCEPT ![i].items[pos].val = 1 - @]]
+\* i takes over the items of j (in the model: copies with fresh identities)
+CallAssignFrom(i, j) ==
+  [o |-> [op |-> "assign_from", i |-> i, j |-> j, share_ok |-> TRUE], res |-> OkRes(<<>>), used |-> Len(w[j].items),
+   w2 |-> [w EXCEPT ![i].items = [k \in 1..Len(w[j].items) |-> [w[j].items[k] EXCEPT !.id = nid + k - 1]]]]
+CallPoke(i) == [o |-> [op |-> "poke", i |-> i, share_ok |-> FALSE], w2 |-> w, res |-> OkRes(<<>>), used |-> 0]
 CallEncode(i) ==
   LET a == w[i] IN
-  [o |-> [op |-> "encode", i |-> i], w2 |-> w, used |-> 0,
+  [o |-> [op |-> "encode", i |-> i, share_ok |-> FALSE], w2 |-> w, used |-> 0,
    res |-> OkRes(IF HasChans THEN Pairs(a) ELSE <<>>)]
 
 \* ---------------------------------------------------------------- which calls a kind offers
@@ -127,6 +137,7 @@ HasAssign      == Kind \in {"Data3D", "Force", "FPCal", "FPData"}
 HasBulk        == Kind = "FPCal"
 HasLookup      == Kind \in IndexKinds
 BadItems       == Kind \in LengthKinds
+HasContent     == Edits /\ Kind \in {"EMG", "Data3D", "Force", "FPData", "Events"}   \* items whose content can be edited in place
 
 Calls ==
   {CallConstruct(i, ls) : i \in 1..NI, ls \in (IF CtorTakesItems THEN LabelSeqs(2) ELSE {<<>>})}
@@ -146,6 +157,9 @@ Calls ==
                           \cup {CallLookup(i, wh, l) : i \in {k \in 1..NI : w[k].ex}, wh \in {"label", "contains"}, l \in Labels \cup {9}} ELSE {})
   \cup {CallEncode(i) : i \in {k \in 1..NI : w[k].ex}}
   \cup (IF Kind = "Data3D" THEN {CallAux(i) : i \in {k \in 1..NI : w[k].ex}} ELSE {})
+  \cup UNION {{CallEdit(i, pos) : pos \in 1..Len(w[i].items)} : i \in {k \in 1..NI : w[k].ex /\ HasContent}}
+  \cup {CallPoke(i) : i \in {k \in 1..NI : w[k].ex}}
+  \cup (IF Kind \in {"Data3D", "Force"} THEN {c \in {CallAssignFrom(i, j) : i \in 1..NI, j \in 1..NI} : c.o.i # c.o.j /\ w[c.o.i].ex /\ w[c.o.j].ex} ELSE {})
 
 Fits(c) == \A i \in 1..NI : /\ Len(c.w2[i].items) <= MaxItems /\ c.w2[i].aux <= 2
                              /\ \A ch \in Range(c.w2[i].chans) : ch <= MaxChan
@@ -153,7 +167,7 @@ Fits(c) == \A i \in 1..NI : /\ Len(c.w2[i].items) <= MaxItems /\ c.w2[i].aux <= 
 RECURSIVE Before(_, _)
 Before(ww, i) == IF i = 1 THEN 0 ELSE Before(ww, i - 1) + Len(ww[i - 1].items)
 Canon(ww) == [i \in 1..NI |-> [ww[i] EXCEPT !.items = [k \in 1..Len(ww[i].items) |->
-                                   [id |-> Before(ww, i) + k, label |-> ww[i].items[k].label]]]]
+                                   [id |-> Before(ww, i) + k, label |-> ww[i].items[k].label, val |-> ww[i].items[k].val]]]]
 Init == w = [i \in 1..NI |-> NoInst] /\ started = FALSE
 Begin == ~started /\ started' = TRUE /\ UNCHANGED w
 Act(c) == started /\ UNCHANGED started /\ Fits(c) /\ w' = Canon(c.w2)
@@ -172,6 +186,9 @@ BulkAdd(i, ls, cs)    == Ex(i) /\ HasBulk /\ Act(CallBulkAdd(i, ls, cs))
 Lookup(i, what, key)  == Ex(i) /\ HasLookup /\ Act(CallLookup(i, what, key))
 Encode(i)             == Ex(i) /\ Act(CallEncode(i))
 AuxEdit(i)            == Ex(i) /\ Kind = "Data3D" /\ Act(CallAux(i))
+EditItem(i, pos)      == Ex(i) /\ HasContent /\ pos <= Len(w[i].items) /\ Act(CallEdit(i, pos))
+Poke(i)               == Ex(i) /\ Act(CallPoke(i))
+AssignFrom(i, j)      == Ex(i) /\ Ex(j) /\ i # j /\ Kind \in {"Data3D", "Force"} /\ Act(CallAssignFrom(i, j))
 
 AssignCs == {<<>>, <<0, 2>>, <<2, 2>>, <<5, 0>>}
 BulkCs   == {<<>>, <<0, 2>>, <<5, 5>>}
@@ -179,7 +196,7 @@ Next ==
   \/ Begin
   \/ \E i \in 1..NI :
         \/ \E ls \in LabelSeqs(2) : Construct(i, ls)
-        \/ \E j \in 1..NI : Decode(i, j)
+        \/ \E j \in 1..NI : Decode(i, j) \/ AssignFrom(i, j)
         \/ \E l \in Labels, g \in BOOLEAN, c \in Chans \cup {Auto} : Add(i, l, g, c)
         \/ \E l \in Labels : RemoveLabel(i, l)
         \/ \E k \in 0..MaxItems : RemoveIndex(i, k)
@@ -189,7 +206,8 @@ Next ==
         \/ \E wh \in {"len", "iter", "badkey"} : Lookup(i, wh, 0)
         \/ \E k \in 0..(MaxItems + 1) : Lookup(i, "index", k)
         \/ \E wh \in {"label", "contains"}, l \in Labels \cup {9} : Lookup(i, wh, l)
-        \/ Encode(i) \/ AuxEdit(i)
+        \/ Encode(i) \/ AuxEdit(i) \/ Poke(i)
+        \/ \E pos \in 1..MaxItems : EditItem(i, pos)
 Spec == Init /\ [][Next]_vars
 
 \* the model's own successors satisfy the contract, for every call in every state
